@@ -74,6 +74,7 @@ fn defval_sql(v: &DefVal) -> Option<SqlVal> {
         DefVal::Bool(b) => SqlVal::Int(*b as i64),
         DefVal::Null => SqlVal::Null,
         DefVal::CurrentTimestamp => return None,
+        DefVal::Bytes(b) => SqlVal::Blob(b.clone()),
     })
 }
 
@@ -107,6 +108,7 @@ fn spec_sig(c: &Col) -> String {
                 DefVal::Bool(_) => "bool",
                 DefVal::Null => "null",
                 DefVal::CurrentTimestamp => "current_timestamp",
+                DefVal::Bytes(_) => "bytes",
             }),
             CS::Check(_) => "Check".into(),
             CS::Generated(_, st) => format!("Generated({})", if *st { "stored" } else { "virtual" }),
